@@ -52,7 +52,7 @@ def plan(tier, seed):
 
 
 def mandatory(tier):
-    return [f"mode/{m}" for m in MODES] + ["affine", "translation", "scaling", "spacing", "bspline", "lame", "inverse_consistency/cube", "inverse_consistency/voxel", "inverse_consistency/world", "modules", "modules/elastic_constants", "default_spacing", "linear_tensor", "inverse_consistency/float_margin", "grad_loss/p/int/odd", "grad_loss/p/int/other", "grad_loss/p/float/other"]
+    return [f"mode/{m}" for m in MODES] + ["affine", "translation", "translation/sigma", "scaling", "spacing", "bspline", "lame", "inverse_consistency/cube", "inverse_consistency/voxel", "inverse_consistency/world", "modules", "modules/elastic_constants", "default_spacing", "linear_tensor", "inverse_consistency/float_margin", "grad_loss/p/int/odd", "grad_loss/p/int/other", "grad_loss/p/float/other"]
 
 
 def interior(a, m):
@@ -174,6 +174,15 @@ def case(ctx, i):
                 ctx.bucket("translation")
                 v0 = fn(u_tr, reduction="none", **ekw)
                 ctx.close("first_order_term_vanishes_on_translation", v0, torch.zeros_like(v0), 1e-9, key=f"{name}/translation_null", **mi)
+                if mode != "bspline":
+                    # with Gaussian pre-smoothing (sigma) a constant field stays constant up to the boundary
+                    sg = float(rng.uniform(0.6, 1.4))
+                    ctx.bucket("translation/sigma")
+                    vs = fn(u_tr, reduction="none", sigma=sg, **ekw)
+                    ctx.close("first_order_term_vanishes_on_translation_with_sigma", vs, torch.zeros_like(vs), 1e-8, key=f"{name}/translation_null", sigma=sg, **mi)
+                    plus = fn(u_s + u_tr, reduction="none", sigma=sg, **ekw)
+                    bs = fn(u_s, reduction="none", sigma=sg, **ekw)
+                    ctx.close("adding_translation_changes_nothing_with_sigma", plus, bs, 1e-7 * (1 + float(bs.abs().max())), key=f"{name}/translation_null", sigma=sg, **mi)
                 va = interior(fn(u_aff, reduction="none", **ekw).numpy(), m)
                 if va.size:
                     want = np.broadcast_to(analytic[name].reshape((N, 1) + (1,) * D), va.shape)
